@@ -176,6 +176,13 @@ class Run:
             good, _bad = tjm.prep_submit_task_jobs(list(itasks))
             for itask in good:
                 run.launched.append([int(itask.point), itask.tdef.name, itask.submit_num])
+                # additive (C28, observation key 'launch_x'): the flows and manual-submit flag of every launch;
+                # as in live mode (submit_livelike_task_jobs) the manual-submit flag is cleared once the job
+                # is handed over (only ever set by `cylc trigger`, so runs without triggers are unaffected)
+                run.__dict__.setdefault('launch_x', []).append(
+                    [int(itask.point), itask.tdef.name, itask.submit_num, flows_of(itask),
+                     bool(itask.is_manual_submit)])
+                itask.is_manual_submit = False
             return good
         schd.submit_task_jobs = submit
         # polls requested by the scheduler are recorded, not executed
@@ -344,6 +351,17 @@ class Run:
             'abs_done': sorted([int(str(c)), str(n), str(o)] for c, n, o in tp.abs_outputs_done),
             'flow_counter': int(schd.flow_mgr.counter),
         }
+        # additive (C28, group trigger): launches with flows / manual flag; per-proxy trigger state
+        # (manual-submit, flow-wait, waiting-on-job-prep, how each prerequisite atom was satisfied);
+        # the trigger-now and pre-start sets; with policy 'obs_db' the task_states / task_outputs tables
+        obs['launch_x'] = sorted(self.__dict__.pop('launch_x', []))
+        obs['xt'], obs['xdb'] = self._observe_trig()
+        # additive (C29 / C08S, `cylc set` + flows): pooled instances with the flow-wait flag up, the flows the
+        # flow manager knows, and the committed rows of task_states joined with task_outputs (queued DB
+        # operations are not visible until the scheduler flushes its queue)
+        obs['fw'] = sorted([int(t.point), t.tdef.name] for t in schd.pool.get_tasks() if t.flow_wait)
+        obs['flows_known'] = sorted(int(f) for f in schd.flow_mgr.flows)
+        obs['ts'] = self._observe_ts() if self.stop_reason is None else None
         self.prepped = []
         self.adds, self.removed, self.stall_at = [], [], None
         self.launched = []
@@ -351,6 +369,68 @@ class Run:
         self.msgs = []
         self.trans = []
         return obs
+
+    def _observe_ts(self):
+        """additive (C29 / C08S): observation key 'ts' = rows of task_states with the outputs of the
+        task_outputs row of the same key: [point, name, flows, status, submit_num, flow_wait,
+        [[trigger, forced]..] | null], sorted."""
+        import sqlite3
+        from cylc.flow.task_outputs import FORCED_COMPLETION_MSG
+        con = sqlite3.connect(self.schd.workflow_db_mgr.pri_path, timeout=5)
+        try:
+            outs = {(c, n, f): json.loads(o) for c, n, f, o in con.execute(
+                'SELECT cycle, name, flow_nums, outputs FROM task_outputs')}
+            rows = []
+            for n, c, f, sn, fw, st in con.execute(
+                    'SELECT name, cycle, flow_nums, submit_num, flow_wait, status FROM task_states'):
+                o = outs.get((c, n, f))
+                if isinstance(o, dict):
+                    o = sorted([t, m == FORCED_COMPLETION_MSG] for t, m in o.items())
+                rows.append([int(c), n, json.loads(f), st, int(sn or 0), bool(fw), o])
+            return sorted(rows, key=lambda r: (r[0], r[1], r[2]))
+        finally:
+            con.close()
+
+    def _observe_trig(self):
+        """additive (C28): observation key 'xt' (see observe)."""
+        schd = self.schd
+        tp = schd.pool
+        _SAT = {False: 0, 'satisfied naturally': 1, 'satisfied from database': 2,
+                'force satisfied': 3, 'satisfied by skip mode': 4}
+        pool = []
+        for itask in tp.get_tasks():
+            pre = []
+            for p in itask.state.prerequisites:
+                pre.append(sorted([int(str(k.point)), k.task, k.output, _SAT.get(v, 9)] for k, v in p.items()))
+            pool.append({
+                'p': int(itask.point), 'n': itask.tdef.name, 'man': bool(itask.is_manual_submit),
+                'fw': bool(itask.flow_wait), 'wjp': bool(itask.waiting_on_job_prep),
+                'pre': sorted(pre, key=lambda a: json.dumps(a, separators=(',', ':')))})
+        pool.sort(key=lambda d: (d['p'], d['n']))
+        out = {
+            'pool': pool,
+            'now': sorted([int(t.point), t.tdef.name] for t in tp.tasks_to_trigger_now),
+            'pre_start': sorted([int(pt), n] for n, pt in tp.pre_start_tasks_to_trigger),
+            # the connected groups the trigger command of this op was split into
+            'groups': sorted(sorted(grp) for grp in self.__dict__.pop('trig_groups', [])),
+        }
+        xdb = None
+        if (self.case.get('policy') or {}).get('obs_db') and self.stop_reason is None:
+            import sqlite3
+            con = sqlite3.connect(schd.workflow_db_mgr.pri_path, timeout=5)
+            try:
+                xdb = {}
+                xdb['states'] = sorted(
+                    [int(c), n, json.loads(f), int(sn or 0), bool(fw), st, bool(man)]
+                    for n, c, f, sn, fw, st, man in con.execute(
+                        'SELECT name, cycle, flow_nums, submit_num, flow_wait, status, is_manual_submit '
+                        'FROM task_states'))
+                xdb['outputs'] = sorted(
+                    [int(c), n, json.loads(f), sorted(json.loads(o))]
+                    for c, n, f, o in con.execute('SELECT cycle, name, flow_nums, outputs FROM task_outputs'))
+            finally:
+                con.close()
+        return out, xdb
 
     # -- ops -------------------------------------------------------------------
     async def apply(self, op):
@@ -381,6 +461,15 @@ class Run:
             if itask is not None:
                 schd.task_events_mgr.process_message(
                     itask, 'INFO', op['msg'], None, TaskEventsManager.FLAG_POLLED, op.get('sn'))
+        elif kind == 'pollres':
+            # the result of a jobs-poll command for job (task, sn), fed through the REAL callback chain:
+            # TaskJobManager._poll_task_jobs_callback -> _manip_task_jobs_callback (output lines are matched to
+            # task proxies by point/name/CURRENT submit number) -> _poll_task_job_callback (job status ->
+            # message) -> process_message(FLAG_POLLED).  op['state']: submitted | started | succeeded | failed |
+            # submission failed | <a message text found in the job status file>
+            itask = schd.pool._get_task_by_id(op['task'])
+            if itask is not None:
+                self.poll_result(itask, op)
         elif kind == 'cmd':
             name, kwargs = op['name'], dict(op.get('args') or {})
             fn = getattr(commands, name)
@@ -389,6 +478,49 @@ class Run:
             if name == 'stop':
                 from cylc.flow.workflow_status import StopMode
                 kwargs['mode'] = StopMode(kwargs['mode']) if kwargs.get('mode') else None
+            if name == 'force_trigger_tasks':
+                # additive (C28): record the connected groups in the order the command handles them (a Python
+                # set order; the hint 'groups' is written back into the op for the model)
+                # (likewise 'hints': per group the iteration orders of the active members, of the ids handed
+                # to the removal and of the respawns -- pool-bucket / set orders the model does not predict)
+                orig_ftt, orig_rm, orig_sp = (
+                    commands._force_trigger_tasks, commands._remove_matched_tasks, schd.pool._set_prereqs_tdef)
+                groups, hints, run = [], [], self
+
+                def _ftt(schd_, group_ids, *a, **k):
+                    groups.append([[int(t['cycle']), t['task']] for t in group_ids])
+                    hints.append({'act': [f'{int(t.point)}/{t.tdef.name}' for t in schd_.pool.get_itasks(group_ids)],
+                                  'rm': [], 'sp': []})
+                    return orig_ftt(schd_, group_ids, *a, **k)
+
+                def _rm(schd_, ids, flow_nums, *a, **k):
+                    if hints:
+                        hints[-1]['rm'] = [f"{int(t['cycle'])}/{t['task']}" for t in ids]
+                        hints[-1]['fn'] = sorted(flow_nums)     # the flow numbers the group is triggered in
+                    return orig_rm(schd_, ids, flow_nums, *a, **k)
+
+                def _sp(point, taskdef, *a, **k):
+                    if hints:
+                        hints[-1]['sp'].append(f'{int(point)}/{taskdef.name}')
+                    return orig_sp(point, taskdef, *a, **k)
+                commands._force_trigger_tasks = _ftt
+                commands._remove_matched_tasks = _rm
+                schd.pool._set_prereqs_tdef = _sp
+                try:
+                    await commands.run_cmd(fn(schd, **kwargs))
+                finally:
+                    commands._force_trigger_tasks = orig_ftt
+                    commands._remove_matched_tasks = orig_rm
+                    schd.pool._set_prereqs_tdef = orig_sp
+                    self.trig_groups = groups
+                    op['groups'] = [sorted(f'{p}/{n}' for p, n in grp) for grp in groups]
+                    op['hints'] = hints
+                    # the jobs of proxies removed by the command are killed: nothing more is heard of them
+                    for p, n, _st, _outs, reason in getattr(self, 'removed', []):
+                        if reason == 'request':
+                            for key in [k for k in self.jobs if k[0] == p and k[1] == n]:
+                                self.jobs.pop(key)
+                return
             await commands.run_cmd(fn(schd, **kwargs))
         elif kind == 'restart':
             # clean shutdown of the stopped scheduler, then a new Scheduler on the same run directory
@@ -409,6 +541,33 @@ class Run:
             await self.start(restart=True)
         else:
             raise ValueError(kind)
+
+    def poll_result(self, itask, op):
+        from cylc.flow.subprocctx import SubProcContext
+        tjm = self.schd.task_job_mgr
+        point, name = op['task'].split('/')
+        path = f"{point}/{name}/{int(op['sn']):02d}"
+        when = '2000-01-01T00:00:00Z'
+        state = op['state']
+        ctx_items = {'job_runner_name': 'background', 'job_id': '1', 'job_runner_exit_polled': 0,
+                     'time_submit_exit': when}
+        line = None
+        if state == 'submitted':
+            pass
+        elif state == 'started':
+            ctx_items['time_run'] = when
+        elif state == 'succeeded':
+            ctx_items.update(run_status=0, time_run=when, time_run_exit=when)
+        elif state == 'failed':
+            ctx_items.update(run_status=1, run_signal='ERR', time_run=when, time_run_exit=when)
+        elif state == 'submission failed':
+            ctx_items['job_runner_exit_polled'] = 1
+        else:
+            line = f"{tjm.job_runner_mgr.OUT_PREFIX_MESSAGE}{when}|{path}|{when}|INFO|{state}\n"
+        if line is None:
+            line = f"{tjm.job_runner_mgr.OUT_PREFIX_SUMMARY}{when}|{path}|{json.dumps(ctx_items)}\n"
+        ctx = SubProcContext(tjm.JOBS_POLL, ['cylc', 'jobs-poll'], out=line, ret_code=0)
+        tjm._poll_task_jobs_callback(ctx, [itask])
 
     # -- adaptive policy -------------------------------------------------------
     def next_op(self, rng, pol, step):
@@ -480,6 +639,15 @@ class Run:
             if later:
                 job['early_final'] = True
                 return {'op': 'msg', 'task': tid, 'msg': later[-1], 'sn': key[2]}
+        if pol.get('p_late') and rng.random() < pol['p_late']:
+            # additive (C02, off unless the policy sets p_late; no random draw otherwise): a late duplicate of the
+            # last message of a finished job, e.g. the failure report arriving again after the retry was lined up
+            fin = sorted(k for k, j in self.jobs.items()
+                         if j['next'] >= len(j['plan']) and j['plan'] and j['plan'][-1][0] == 'msg')
+            if fin:
+                key = rng.choice(fin)
+                return {'op': 'msg', 'task': f'{key[0]}/{key[1]}', 'msg': self.jobs[key]['plan'][-1][1],
+                        'sn': key[2]}
         return {'op': 'loop'}
 
     def job_truth(self, key):
@@ -519,7 +687,7 @@ class Run:
         point, name, sn, truth = self.poll_reqs.pop(0)
         if not pol.get('poll_late'):
             truth = self.job_truth((point, name, sn)) or truth
-        return {'op': 'poll', 'task': f'{point}/{name}', 'msg': truth, 'sn': sn}
+        return {'op': 'pollres', 'task': f'{point}/{name}', 'state': truth, 'sn': sn}
 
     def random_cmd(self, rng, pol):
         g = self.graph
@@ -530,9 +698,98 @@ class Run:
         pts = list(range(g['icp'], g['fcp'] + 1))
 
         def some_ids():
+            if kind == 'hold' and pol.get('p_hold_queued') and rng.random() < pol['p_hold_queued']:
+                # additive (C06, off unless the policy sets p_hold_queued): hold a task that sits in a queue
+                # (queued, not yet released to job preparation) - the window the queue release must respect
+                queued = sorted((int(t.point), t.tdef.name) for t in self.schd.pool.get_tasks()
+                                if t.state.is_queued and not t.state.is_held)
+                if queued:
+                    return ['%d/%s' % rng.choice(queued)]
             pooled = [(int(t.point), t.tdef.name) for t in self.schd.pool.get_tasks()]
             src = pooled if pooled and rng.random() < 0.6 else insts
             return sorted({f'{p}/{n}' for p, n in rng.sample(src, min(len(src), rng.randint(1, 2)))})
+        if kind == 'trigger':
+            # additive (C28): `cylc trigger` of a group of task instances (pooled and not, any state),
+            # grown along graph edges so that in-group prerequisites occur; --flow=new / none / N / default
+            pooled = [(int(t.point), t.tdef.name) for t in self.schd.pool.get_tasks()]
+            src = pooled if pooled and rng.random() < 0.5 else insts
+            group = set(rng.sample(src, min(len(src), rng.choice([1, 1, 2, 2, 3]))))
+            inst_set = set(insts)
+            for _ in range(rng.choice([0, 1, 1, 2, 3])):
+                p, n = rng.choice(sorted(group))
+                d = g['tasks'][n]['inst'][str(p)]
+                nbrs = [(a[0], a[1]) for pre in d['pre'] for a in pre['atoms']]
+                nbrs += [(c[1], c[0]) for cs in d['children'].values() for c in cs]
+                nbrs = sorted(set(x for x in nbrs if x in inst_set))
+                if nbrs:
+                    group.add(rng.choice(nbrs))
+            r = rng.random()
+            if r < 0.5:
+                flow = []
+            elif r < 0.65:
+                flow = ['new']
+            elif r < 0.77:
+                flow = ['none']
+            else:
+                top = int(self.schd.flow_mgr.counter) + 1
+                flow = sorted({str(rng.randint(1, top)) for _ in range(rng.choice([1, 1, 2]))})
+            wait = bool(flow not in (['new'], ['none']) and rng.random() < 0.15)
+            return {'op': 'cmd', 'name': 'force_trigger_tasks',
+                    'args': {'tasks': sorted(f'{p}/{n}' for p, n in group), 'flow': flow, 'flow_wait': wait}}
+        if kind in ('set_out', 'set_pre'):
+            # additive (C29 / C08S): `cylc set` of outputs / prerequisites on ONE task instance (pooled or not,
+            # any state) with --flow=default / new / none / N.. and --wait.  One id per command (the code iterates
+            # a set of ids), at most one custom output per command (custom outputs tie in the sort key).
+            pooled = [(int(t.point), t.tdef.name) for t in self.schd.pool.get_tasks()]
+            src = pooled if pooled and rng.random() < 0.5 else insts
+            p, n = rng.choice(sorted(src))
+            active = set()
+            for t in self.schd.pool.get_tasks():
+                active |= set(t.flow_nums)
+            r = rng.random()
+            if r < 0.55 and active:
+                flow = []
+            elif r < 0.7:
+                flow = ['new']
+            elif r < 0.8:
+                flow = ['none']
+            else:
+                top = int(self.schd.flow_mgr.counter) + 1
+                flow = sorted({str(rng.randint(1, top)) for _ in range(rng.choice([1, 1, 2]))})
+            wait = bool(flow not in (['new'], ['none']) and rng.random() < 0.15)
+            args = {'tasks': [f'{p}/{n}'], 'flow': flow, 'flow_wait': wait}
+            tdefs = g['tasks']
+            if kind == 'set_out':
+                std = ['submitted', 'started', 'succeeded', 'failed', 'submit-failed', 'expired']
+                custom = [o[0] for o in tdefs[n]['outputs'] if o[0] not in std]
+                r = rng.random()
+                if r < 0.3:
+                    outs = []
+                else:
+                    outs = rng.sample(std, rng.choice([1, 1, 2]))
+                    if custom and rng.random() < 0.4:
+                        outs.append(rng.choice(custom))
+                    if rng.random() < 0.05:
+                        outs.append('nope')
+                    if r > 0.9 and custom:
+                        outs = [rng.choice(custom)]
+                args['outputs'] = outs
+            else:
+                d = tdefs[n]['inst'].get(str(p)) or {'pre': []}
+                trig = {nm: {o[1]: o[0] for o in t['outputs']} for nm, t in tdefs.items()}
+                atoms = sorted({(a[0], a[1], a[2]) for pre in d['pre'] for a in pre['atoms']})
+                r = rng.random()
+                if r < 0.3 or not atoms:
+                    pres = ['all'] if r < 0.85 else []
+                else:
+                    pres = [f'{a[0]}/{a[1]}:{trig[a[1]].get(a[2], a[2])}'
+                            for a in rng.sample(atoms, min(len(atoms), rng.choice([1, 1, 2])))]
+                if (r > 0.8 and pres != ['all']) or not pres:
+                    # something the task does not depend on
+                    q, m = rng.choice(insts)
+                    pres.append(f'{q}/{m}:' + rng.choice(['succeeded', 'started', 'failed', 'nope']))
+                args['prerequisites'] = pres
+            return {'op': 'cmd', 'name': 'set_prereqs_and_outputs', 'args': args}
         if kind in ('hold', 'release'):
             return {'op': 'cmd', 'name': kind, 'args': {'tasks': some_ids()}}
         if kind == 'set_hold_point':
@@ -614,6 +871,7 @@ class Run:
                         break
                     op = self.next_op(rng, pol, step)
                 step += 1
+                self.ops_done, self.cur_op = ops_out, op      # additive: reported when the scheduler raises
                 await self.apply(op)
                 ob = self.observe(after_loop=(op['op'] == 'loop'))
                 for point, name, sn in ob['launch']:
@@ -696,11 +954,28 @@ def extract_graph(schd, case):
                 # additive (C01 judge): whether the instance is parentless (TaskDef.is_parentless); the model
                 # does not read it
                 'parentless': bool(tdef.is_parentless(pt, cfg.start_point)),
+                # additive (C28, read by the group-trigger model): what `cylc trigger` reads off the TaskDef --
+                # the parents named by the (non-suicide) triggers, the prerequisite atoms of TaskDef.get_prereqs,
+                # and is_parentless with the initial point as cutoff
+                'trig_parents': sorted({(int(str(trg.get_point(pt))), trg.task_name)
+                                        for trg in tdef.get_triggers(pt)}),
+                'tdef_atoms': sorted({(int(str(k.point)), k.task, k.output)
+                                      for pre in tdef.get_prereqs(pt) for k in pre.keys()}),
+                'parentless_icp': bool(tdef.is_parentless(pt, cfg.initial_point)),
+                # additive (C29): the prerequisite atoms `cylc set --pre` accepts for this instance
+                # (_get_valid_prereqs: keys of TaskDef.get_prereqs)
+                'valid_pre': sorted([int(str(k.point)), k.task, k.output]
+                                    for k in {k for pre in tdef.get_prereqs(pt) for k in pre.keys()}),
             }
             if comp is None:
                 comp = parse_bool(itask.state.outputs._completion_expression.replace('_', '-') if False else itask.state.outputs._completion_expression,
                                   r'[A-Za-z_][\w]*', ops=('and', 'or'))
                 outs = [[t, m, r] for t, (m, r) in tdef.outputs.items()]
+                # additive (C29): what `cylc set` without --out completes: the required output messages, or
+                # (none required) the skip-mode outputs
+                from cylc.flow.run_modes.skip import process_outputs as _skip_outputs
+                req_msgs = sorted(itask.state.outputs.iter_required_messages())
+                skip_msgs = sorted(_skip_outputs(itask))
         fp = tdef.next_point_parentless(cfg.start_point)
         tasks[name] = {
             'inst': inst,
@@ -711,6 +986,8 @@ def extract_graph(schd, case):
             'sub_retries': len(tdef.rtconfig['submission retry delays'] or []),
             'has_abs': bool(tdef.has_abs_triggers),
             'sequential': bool(tdef.sequential),
+            'required': req_msgs if inst else [],
+            'skip_out': skip_msgs if inst else [],
         }
     seqs = []
     for seq in cfg.sequences:
@@ -730,7 +1007,9 @@ async def run_case(case):
         return await run.drive()
     except Exception:
         stage = 'load' if getattr(run, 'load_error', None) else 'run'
-        return {'id': case['id'], 'error': traceback.format_exc()[-3000:], 'stage': stage}
+        return {'id': case['id'], 'error': traceback.format_exc()[-3000:], 'stage': stage,
+                # additive: the ops applied before the exception and the op that raised
+                'ops_done': getattr(run, 'ops_done', None), 'op_failed': getattr(run, 'cur_op', None)}
 
 
 def main():
